@@ -38,7 +38,7 @@ EXPLANATION = (
     "the interval handed over is the one the DP selected (C03)."
 )
 # obligations added during the build phase (seeding rounds, twins, mutation analysis)
-ADDED_IN_BUILD = " Also: the point family is the CONFIGURED point penalty (scenario with point_penalty='dense'); the sparse family computes alpha = 2 scale log n and beta = 2 scale log(k p) (C15.a sparse|alpha, sparse|betas re-run); FORMAT is decided on the formatter's paths (C04.a icolumns re-run), not on the spelling of the conversion. DENSE-MARK: the column index of the label store is the anomaly's icolumns entry itself (a slice first .. first + k is a violation unless a test over all entries guards it); the frame is built from the label matrix. FORMAT keeps the interval-order obligation of the subset formatter."
+ADDED_IN_BUILD = " Also: the point family is the CONFIGURED point penalty (scenario with point_penalty='dense'); the sparse family computes alpha = 2 scale log n and beta = 2 scale log(k p) (C15.a sparse|alpha, sparse|betas re-run); FORMAT is decided on the formatter's paths (C04.a icolumns re-run), not on the spelling of the conversion. DENSE-MARK: the column index of the label store is the anomaly's icolumns entry itself (a slice first .. first + k is a violation unless a test over all entries guards it); the frame is built from the label matrix. FORMAT keeps the interval-order obligation of the subset formatter. The open / closed adjustment of the interval ends is decided by cases over the four values of `closed`: every value a path's tests admit must get exactly its own adjustment."
 EXPLANATION = EXPLANATION + ADDED_IN_BUILD
 
 ASSUMPTIONS = [
